@@ -56,7 +56,10 @@ PROPS = {
     ),
     'C13': dict(
         units=['seqlib'],
-        not_covered='TBD',
+        not_covered='everything except the seven helpers under contract: the multi!/multimulti! kind dispatch, sorted/sorted_by/sorted_on (std sort_by + '
+                    'closures), uniqued/classified_with (std HashSet/HashMap), windowed (VecDeque::iter().cloned()), grouped_by, Zip/ZipLongest/'
+                    'CartesianProduct/Fold/Scan/Merge/Count/Extremum, SeqAndMappedFoldBuiltin, the one-liners registered in initialize, and the '
+                    'combinatorial streams; user callbacks are an uninterpreted function of (callee, arguments), effects not modelled',
     ),
     'C10': dict(
         units=['index'], kani='thorough',
@@ -92,11 +95,19 @@ TEXT = {
             'closed-form len() agree with the iteration that next() performs.'),
     'C16': ('Verus proves that the Display/LowerHex/UpperHex/Binary/Octal impls of NInt (and the integer arm of NNum) write the '
             'sign-magnitude rendering of the abstract value, so the text cannot depend on the representation (assuming std\'s and '
-            'num-bigint\'s formatting behaviour). Only this clause of C16 is decided.'),
+            'num-bigint\'s formatting behaviour); and that the str_radix / int_radix closures of lib.rs write and read positional '
+            'notation: str_radix(n, b) is THE base-b numeral of n (digits below b, no leading zero, sign first, positional value |n|) and '
+            'int_radix reads exactly the digit strings below the base as their positional value (so int_radix(str_radix(n, b), b) == n), '
+            'for every n and every base 2..36. Only these clauses of C16 are decided by proof.'),
     'C14': ('For every function under contract in the other units Verus proves panic-freedom for all inputs satisfying the '
             'stated preconditions: no arithmetic overflow, no division by zero, no out-of-range cast or index, no reachable '
             'panic!/todo!/unreachable!/expect, and every precondition that encodes a dependency panic (BigInt division by '
             'zero, reciprocal of zero, num-rational pow) is discharged at the builtin closures that call it.'),
+    'C13': ('Verus proves seven of the kind-independent sequence helpers of lib.rs against their one-line definitions, for every input length '
+            'and every element type (vstd iterator model): reversed = reverse; prefixes / reversed_prefixes = one (reversed) prefix per length in '
+            'order; grouped = consecutive chunks of n with group\' refusing a leftover; take_while_inner = the longest prefix whose elements '
+            'all pass, the next element having been tested and failed; filtered = exactly the elements whose test differs from neg, order '
+            'kept (filter / reject); an erroring item or callback is raised. Only these helpers are decided by proof.'),
     'C12': ('Verus proves the type-predicate kernel: is_type(type_of(v), v) and is_type(anything, v) hold for every value, '
             'number accepts every numeric level, and builtin types classify by constructor.'),
 }
